@@ -33,6 +33,8 @@ CLAIMS = {
          "Runner/loader/Init faults are injected by the harness components; one event per callback with global sequence numbers.", T_APP),
  "C14": ("model_checking", "App.tla models Close as fork/join with one process per closer; TLC explores 0-4 closers x all interleavings (waits-for-all, once, isolation via ENABLED, and termination under fairness); real Close calls run with closers held on gates and released in seeded finishing orders; a Close that returns while a closer is held, skips a closer or calls one twice is visible in the sequence-numbered log TLC validates.", "5 C14",
          "Gated closers make the schedule deterministic; bounded waits keep the harness sound for a sequential implementation.", T_APP),
+ "C20": ("model_checking", "SyncMap.tla models the containers as implemented (atomic delegations, three-step LoadOrStoreFn); TLC enumerates every schedule of up to 3-5 operations by 2-3 goroutines over 1-2 keys, checks linearizability by brute force and one-winner, and exports the schedules, which are replayed with real goroutines on the real sync2.Map / ConcurrentSets (the LoadOrStoreFn callback is the gate) and validated by TraceSyncMap.tla; ScanPhase.tla decides race freedom of the scan wave by a vector-clock happens-before analysis for 0-4 simultaneously failing scanners, and real starts / shutdowns / container stress run under the Go race detector with the failures gated to coincide.", "5 C20",
+         "sync.Map is trusted to be linearizable; interleavings inside single delegations come from stress only (probabilistic); the race detector observes the executions it sees.", "TLA+ specs (SyncMap.tla, ScanPhase.tla) checked with TLC; TLC-generated schedules replayed with real goroutines; race-detector runs validated by TraceScan.tla"),
 }
 checks = []
 for p in props:
